@@ -59,13 +59,17 @@ pub enum Op {
     /// traverse with the given flavour: (flavour index, abandon after n items or usize::MAX)
     Iter(usize, usize),
     Stats,
+    /// advance an iterator that stays alive across calls by n steps
+    IterStep(usize),
+    /// put_from_iter fed by an iterator over the same map (values reversed in place)
+    PutIterSelf,
 }
 
 impl Op {
     pub fn is_update(&self) -> bool {
         matches!(
             self,
-            Op::Put(..) | Op::Del(..) | Op::PutStr(..) | Op::DelStr(..) | Op::BulkPut(..) | Op::BulkPutStr(..) | Op::BulkDel(..) | Op::BulkDelStr(..) | Op::PutIter(..)
+            Op::Put(..) | Op::Del(..) | Op::PutStr(..) | Op::DelStr(..) | Op::BulkPut(..) | Op::BulkPutStr(..) | Op::BulkDel(..) | Op::BulkDelStr(..) | Op::PutIter(..) | Op::PutIterSelf
         )
     }
     pub fn is_sync(&self) -> bool {
@@ -98,6 +102,8 @@ impl Op {
             Op::Reopen(..) => "reopen",
             Op::Iter(..) => "iterate",
             Op::Stats => "stats",
+            Op::IterStep(..) => "iterator_step",
+            Op::PutIterSelf => "put_from_iter_self",
         }
     }
     pub fn text(&self) -> String {
@@ -133,6 +139,8 @@ impl Op {
             Op::Reopen(c) => format!("reopen {}", c.text()),
             Op::Iter(f, n) => format!("iter {f} {n}"),
             Op::Stats => "stats".into(),
+            Op::IterStep(n) => format!("iter_step {n}"),
+            Op::PutIterSelf => "put_iter_self".into(),
         }
     }
     pub fn parse(s: &str) -> Option<Op> {
@@ -183,6 +191,8 @@ impl Op {
             "reopen" => Op::Reopen(Cfg::parse(it.next()?)?),
             "iter" => Op::Iter(it.next()?.parse().ok()?, it.next()?.parse().ok()?),
             "stats" => Op::Stats,
+            "iter_step" => Op::IterStep(it.next()?.parse().ok()?),
+            "put_iter_self" => Op::PutIterSelf,
             _ => return None,
         })
     }
@@ -439,6 +449,9 @@ impl<'a> Gen<'a> {
             _ => {
                 if r.chance(1, 10) {
                     r.range(4090, p.max_key.max(4100) as u64) as u32
+                } else if r.chance(1, 3) {
+                    // lengths at the width boundaries of the length field itself and at buffer chunk sizes
+                    *r.pick(&[1u32, 126, 127, 128, 129, 4095, 4096, 4097, 16382, 16383, 16384, 16385])
                 } else {
                     r.range(300, 2000) as u32
                 }
@@ -451,6 +464,15 @@ impl<'a> Gen<'a> {
         let mut seen: HashSet<Vec<u8>> = HashSet::new();
         let mut keys = Vec::new();
         let mut tries = 0;
+        // byte-string key types: a family of distinct 16-byte keys with the same full 64-bit placement hash
+        // (equal hash must never be taken for equal key)
+        if (K::NAME == "bytes" || K::NAME == "string") && p.pool >= 6 && self.rng.chance(1, 2) {
+            for k in crate::decoder::colliding_keys(&mut self.rng, 3) {
+                if seen.insert(k.clone()) {
+                    keys.push(k);
+                }
+            }
+        }
         while keys.len() < p.pool && tries < p.pool * 20 + 100 {
             tries += 1;
             let want = self.key_len(p) as usize;
@@ -544,7 +566,8 @@ impl<'a> Gen<'a> {
                 }
                 y -= p.w_reopen;
                 if y < p.w_bulk {
-                    let op = match self.rng.below(8) {
+                    let op = match self.rng.below(9) {
+                        8 => Op::PutIterSelf,
                         0 | 1 => Op::BulkGet(self.batch_keys(pool, true)),
                         2 => Op::BulkGetStr(self.batch_keys(pool, true)),
                         3 => {
